@@ -37,10 +37,12 @@ impl TraitHandler for HashUnionHandler {
 
         let (impl_generics, ty_generics, where_clause) = ast.generics.split_for_impl();
 
+        let hasher = super::hasher_ident(&ast.generics);
+
         token_stream.extend(quote! {
             impl #impl_generics ::core::hash::Hash for #ident #ty_generics #where_clause {
                 #[inline]
-                fn hash<H: ::core::hash::Hasher>(&self, state: &mut H) {
+                fn hash<#hasher: ::core::hash::Hasher>(&self, state: &mut #hasher) {
                     let size = ::core::mem::size_of::<Self>();
                     let data = unsafe { ::core::slice::from_raw_parts(self as *const Self as *const ::core::primitive::u8, size) };
 
